@@ -229,6 +229,9 @@ impl C14 {
         if e.border_color() as u8 != s.border {
             return Err(Fail::new("C14.border", &w("border"), format!("border_color() = {}, the file says {}", e.border_color() as u8, s.border)));
         }
+        if fmt == 1 && e.verif_frame_clocks() as u32 != s.frame_t {
+            return Err(Fail::new("C14.frame_position", &w("cycles_start"), format!("position inside the frame after the load is T {}, the file says {}", e.verif_frame_clocks(), s.frame_t)));
+        }
         // paging
         if m128 {
             let (latch, unlocked, map) = e.verif_paging();
@@ -277,7 +280,7 @@ impl Property for C14 {
     }
     fn runs(&self, tier: Tier) -> u64 {
         match tier {
-            Tier::Quick => 600,
+            Tier::Quick => 1_800,
             Tier::Thorough => 60_000,
         }
     }
@@ -302,7 +305,7 @@ impl Property for C14 {
         ]
     }
     fn expected_probes(&self) -> Vec<&'static str> {
-        vec!["sna_loaded", "szx_loaded", "szx_compressed_page", "szx_unknown_chunk", "dirty_receiver", "ay_twin_compared", "halted_flag", "eilast_flag", "encodings_compared", "mismatch_rejected", "scr_loaded", "presence_checked", "locked_file", "display_checked", "display_other_bank_checked", "same_file_loaded_twice", "receiver_with_ay_disabled"]
+        vec!["sna_loaded", "szx_loaded", "szx_compressed_page", "szx_unknown_chunk", "dirty_receiver", "ay_twin_compared", "halted_flag", "eilast_flag", "encodings_compared", "mismatch_rejected", "scr_loaded", "presence_checked", "locked_file", "display_checked", "display_other_bank_checked", "same_file_loaded_twice", "receiver_with_ay_disabled", "szx_frame_position_above_65535"]
     }
 
     fn gen(&self, rng: &mut Rng, _tier: Tier, idx: u64) -> Scenario {
@@ -366,6 +369,21 @@ impl Property for C14 {
         match kind {
             0 => {
                 // ------------------------------------------------ full state comparison
+                if fmt == 1 {
+                    // SZX carries the position inside the frame (a 32-bit field; frames are longer than 65535 T)
+                    let f = if m128 { 70908u32 } else { 69888 };
+                    s.frame_t = match (sc.get("seed") >> 13) & 7 {
+                        0 | 1 => 0,
+                        2 => 65535,
+                        3 => 65536,
+                        4 => f - 1,
+                        5 => 65536 + ((sc.get("seed") >> 16) as u32 % (f - 65536)),
+                        _ => (sc.get("seed") >> 16) as u32 % f,
+                    };
+                    if s.frame_t >= 65536 {
+                        ctx.probe("szx_frame_position_above_65535");
+                    }
+                }
                 if fmt == 0 {
                     // SNA carries IFF2 only
                     s.cpu.iff1 = s.cpu.iff2;
@@ -449,6 +467,8 @@ impl Property for C14 {
                 if fmt == 1 && (opt.with_keyb || opt.with_mouse) {
                     ctx.probe("presence_checked");
                     for e in [&mut r1, &mut r2] {
+                        // an absent device leaves the port to the floating bus: read it where that is 0xFF (top border)
+                        goto_frame_t(e, 300, if m128 { 70908 } else { 69888 });
                         if opt.with_mouse {
                             e.send_mouse_button(MOUSE_BUTTONS[0], true);
                             let v = e.verif_bus().read_io(0xFADF);
@@ -552,13 +572,17 @@ impl Property for C14 {
                     // twin: same file without the AY chunk, AY programmed through the ports in register order
                     let mut o2 = opt.clone();
                     o2.with_ay = false;
-                    let bytes2 = write_szx(&s, &o2);
+                    // (both files at frame position 0: the sample grid is tied to the frame clock)
+                    let mut s0 = s.clone();
+                    s0.frame_t = 0;
+                    let bytes2 = write_szx(&s0, &o2);
+                    let bytes0 = write_szx(&s0, &opt);
                     let mut drng2 = Rng::new(1);
                     // 8 kHz: one sample lasts 437 T, so the twin's port writes (about 300 T) fall between
                     // two samples and both chips see the same programming before their first sample
                     let mut t = mk_rate(m128, 0, &mut drng2, false, false, 8000);
                     let mut f2 = mk_rate(m128, 0, &mut drng2, false, false, 8000);
-                    if let (Ok(Ok(())), Ok(Ok(()))) = (load(&mut t, 1, &bytes2, 0), load(&mut f2, 1, &bytes, 0)) {
+                    if let (Ok(Ok(())), Ok(Ok(()))) = (load(&mut t, 1, &bytes2, 0), load(&mut f2, 1, &bytes0, 0)) {
                         if !m128 {
                             // the 48K AY chunk flag enables the chip; the twin enables it through the API
                             t.set_ay_enabled(true);
